@@ -422,7 +422,66 @@ def stage_classes(ctx, rng, jobs):
             scases.append("PC %s %s %s [%s]" % (natlist(sizes), oz(sl["a"]), oz(sl["b"]),
                                                "; ".join("(%d%%nat, %s, %s)" % (a, zlit(b), zlit(c)) for a, b, c in tr)))
             smeta.append({"fn": "CatLinearOperator._split_slice", "sizes": sizes, "slice": [sl["a"], sl["b"]], "observed": tr})
-    jobs.bad("L3cat", mk_shards("l3cat", "cat_case", cases, "bad_cat"), lambda bad, meta=meta: report_lib(ctx, bad, meta, "cat_locate"))
+    cases_cat, meta_cat = cases, meta
+    # ---- Interpolated._get_indices over a dense base; the default LinearOperator._get_indices (same formula, one point, weight 1)
+    quad = lambda q: "(%s, %s, %s, %s)" % tuple(zlist(x) for x in q)
+    cases, meta = [], []
+    for j in range(reps):
+        m, n, k = rng.choice([1, 2, 3]), rng.choice([1, 2, 3]), rng.choice([1, 2, 3])
+        M, N = rng.choice([1, 2, 4]), rng.choice([1, 3])
+        base = rand_mat(rng, m, n)
+        li = [[rng.randrange(m) for _ in range(k)] for _ in range(M)]
+        ri = [[rng.randrange(n) for _ in range(k)] for _ in range(N)]
+        lv = [[rng.randint(-3, 3) for _ in range(k)] for _ in range(M)]
+        rv = [[rng.randint(-3, 3) for _ in range(k)] for _ in range(N)]
+        rc = rand_pairs(rng, M, N, 6) + [(M - 1, N - 1)]
+        if j % 4 == 3:
+            # the default implementation, called on an operator class that does not override it
+            op = O.DenseLinearOperator(base)
+            rc = rand_pairs(rng, m, n, 6) + [(m - 1, n - 1)]
+            obs = observe(lambda: O.LinearOperator._get_indices(op, LT([p[0] for p in rc]), LT([p[1] for p in rc]))) or [99999]
+            qs = [([r], [1], [c], [1]) for r, c in rc]
+            fn = "LinearOperator._get_indices (default)"
+        else:
+            op = O.InterpolatedLinearOperator(O.DenseLinearOperator(base), LT(li), torch.tensor(lv, dtype=torch.float64),
+                                              LT(ri), torch.tensor(rv, dtype=torch.float64))
+            obs = observe(lambda: op._get_indices(LT([p[0] for p in rc]), LT([p[1] for p in rc]))) or [99999]
+            qs = [(li[r], lv[r], ri[c], rv[c]) for r, c in rc]
+            fn = "InterpolatedLinearOperator._get_indices"
+        cases.append("IC %s %s [%s] %s" % (zlit(n), zlist(ints_of(base)), "; ".join(quad(q) for q in qs), zlist(obs)))
+        meta.append({"fn": fn, "base": [m, n], "k": k, "rc": rc, "observed": obs})
+    jobs.bad("L3interp", mk_shards("l3interp", "interp_case", cases, "bad_interp"), lambda bad, meta=meta: report_lib(ctx, bad, meta, "interp_get_indices"))
+    stats["l3_interp_cases"] = len(cases)
+    # ---- Interpolated._diagonal over a Root base with dense root (own shortcut): equal / different index tensors on the two sides
+    cases, meta = [], []
+    for j in range(reps):
+        m, rk, k, M = rng.choice([2, 3]), rng.choice([1, 2, 3]), rng.choice([1, 2]), rng.choice([1, 2, 4])
+        R = rand_mat(rng, m, rk)
+        li = [[rng.randrange(m) for _ in range(k)] for _ in range(M)]
+        ri = li if j % 2 else [[rng.randrange(m) for _ in range(k)] for _ in range(M)]
+        lv = [[rng.randint(-3, 3) for _ in range(k)] for _ in range(M)]
+        rv = [[rng.randint(-3, 3) for _ in range(k)] for _ in range(M)]
+        op = O.InterpolatedLinearOperator(O.RootLinearOperator(R), LT(li), torch.tensor(lv, dtype=torch.float64),
+                                          LT(ri), torch.tensor(rv, dtype=torch.float64))
+        obs = observe(lambda: op._diagonal()) or [99999]
+        qs = [(li[i], lv[i], ri[i], rv[i]) for i in range(M)]
+        cases.append("IDC %s %s [%s] %s" % (zlit(rk), zlist(ints_of(R)), "; ".join(quad(q) for q in qs), zlist(obs)))
+        meta.append({"fn": "InterpolatedLinearOperator._diagonal (Root base)", "root": [m, rk], "same_indices": bool(j % 2), "observed": obs})
+    jobs.bad("L3idiag", mk_shards("l3idiag", "idiag_case", cases, "bad_idiag"), lambda bad, meta=meta: report_lib(ctx, bad, meta, "interp_root_diag"))
+    stats["l3_interp_root_diag_cases"] = len(cases)
+    # ---- _kron_diag (1-4 factors)
+    from linear_operator.operators.kronecker_product_linear_operator import _kron_diag
+    cases, meta = [], []
+    for j in range(reps):
+        sizes = [rng.choice([1, 2, 3]) for _ in range(1 + j % 4)]
+        diags = [[rng.randint(-3, 3) for _ in range(sz)] for sz in sizes]
+        ops = [O.DiagLinearOperator(torch.tensor(d, dtype=torch.float64)) for d in diags]
+        obs = observe(lambda: _kron_diag(*ops)) or [99999]
+        cases.append("KD [%s] %s" % ("; ".join(zlist(d) for d in diags), zlist(obs)))
+        meta.append({"fn": "_kron_diag", "diags": diags, "observed": obs})
+    jobs.bad("L3kdiag", mk_shards("l3kdiag", "kdiag_case", cases, "bad_kdiag"), lambda bad, meta=meta: report_lib(ctx, bad, meta, "kron_diag"))
+    stats["l3_kron_diag_cases"] = len(cases)
+    jobs.bad("L3cat", mk_shards("l3cat", "cat_case", cases_cat, "bad_cat"), lambda bad, meta=meta_cat: report_lib(ctx, bad, meta_cat, "cat_locate"))
     def on_split(codes):
         codes = codes or []
         for b in [i for i, c in enumerate(codes) if c == 0][:3]:
@@ -432,6 +491,6 @@ def stage_classes(ctx, rng, jobs):
         stats["l3_split_fixed_only"] = sum(1 for c in codes if c == 2)
         stats["l3_split_both"] = sum(1 for c in codes if c == 3)
     jobs.codes("L3split", mk_shards("l3split", "split_case", scases, "split_codes"), on_split)
-    stats["l3_cat_cases"] = len(cases)
+    stats["l3_cat_cases"] = len(cases_cat)
     stats["l3_split_cases"] = len(scases)
     return stats
